@@ -679,6 +679,10 @@ pub mod __verif {
         });
         if let Some(sink) = sink {
             let mut g = sink.lock().unwrap_or_else(|e| e.into_inner());
+            // a process that logs without end (an actor spinning in its loop) must not fill the disk: the log is a prefix
+            if g.ticket >= 400_000 {
+                return;
+            }
             g.ticket += 1;
             let line = format!(
                 "{{\"t\":{},\"pid\":{},\"e\":\"{}\",\"id\":{},\"x\":{},\"y\":{}}}\n",
